@@ -21,6 +21,7 @@ import KafkaVerif.Lemmas.GroupFront
 import KafkaVerif.Lemmas.ReaderRun
 import KafkaVerif.Lemmas.GroupLog
 import KafkaVerif.Lemmas.GroupResp
+import KafkaVerif.Lemmas.GroupReq
 
 namespace KV.Commit.C03
 open KV.Commit
@@ -387,6 +388,17 @@ theorem heartbeat_error_on_the_wire (code : Int) (hc : KV.GroupWire.Fits 2 code)
     opRead (simpleOp "leaveGroup" KV.Gen.ConnLegacy.leaveGroupResponseV0) 0 topic ⟨KV.Spec.GroupWire.errOnly code, 2⟩ =
       ((if code = 0 then Outcome.ok else Outcome.kafka code), ⟨[], 0⟩) :=
   ⟨errOnly_conclusion "heartbeat" _ rfl code hc topic, errOnly_conclusion "leaveGroup" _ rfl code hc topic⟩
+
+/-- the requests: OffsetCommit v2 and OffsetFetch v1 as the legacy Conn writes them (writers re-extracted into
+`Gen/Legacy.lean`) are the Kafka layouts, every field in its place by name (generation id, member id, retention, per
+partition: partition, offset, metadata) -/
+theorem commit_requests_on_the_wire :
+    (∀ t, KV.Gen.Legacy.offsetCommitRequestV2.writeTo t =
+      KV.Spec.GroupWire.Req.offsetCommit t.GroupID t.GenerationID t.MemberID t.RetentionTime
+        (t.Topics.map fun x => (x.Topic, x.Partitions.map fun p => (p.Partition, p.Offset, p.Metadata)))) ∧
+    (∀ t, KV.Gen.Legacy.offsetFetchRequestV1.writeTo t =
+      KV.Spec.GroupWire.Req.offsetFetch t.GroupID (t.Topics.map fun x => (x.Topic, x.Partitions))) :=
+  ⟨KV.GroupReq.offsetCommit_layout, KV.GroupReq.offsetFetch_layout⟩
 
 end Wire
 
